@@ -116,7 +116,8 @@ def _decomposition_problem(sdr, sir, snr):
     sdr, sir, snr = (np.asarray(v, dtype=float) for v in (sdr, sir, snr))
     lhs = 10 ** (-sdr / 10)
     rhs = 10 ** (-sir / 10) + 10 ** (-snr / 10)
-    bad = ~(np.abs(lhs - rhs) <= 1e-9 * rhs)
+    with np.errstate(all='ignore'):
+        bad = ~((np.abs(lhs - rhs) <= 1e-9 * rhs) | ((lhs == rhs) & np.isinf(lhs)))   # a silent source: inf = inf
     if np.any(bad):
         pos = tuple(int(v) for v in np.argwhere(bad)[0])
         return f'1/SDR = {lhs[pos]} but 1/SIR + 1/SNR = {rhs[pos]} at {pos}'
@@ -346,6 +347,8 @@ def _as_pcm(rng, *arrays):
     for a in arrays:        # every signal at its own recording gain, so that none of them rounds to silence
         g = float(rng.uniform(3000, 30000)) / (float(np.max(np.abs(a))) or 1.0)
         out.append(np.round(a * g).astype(np.int16))
+    if not all(np.all(np.any(o != 0, axis=-1)) for o in out):
+        return list(arrays)     # a weak channel would round to silence (zero power is outside the identities): keep floats
     return out
 
 
